@@ -123,12 +123,14 @@ fn table_vs_reference(obs: &Obs, refm: &RefModel) -> Option<(String, String)> {
 }
 
 /// (b): against the observation before the vacuum
-fn table_vs_before(b: &Obs, a: &Obs) -> Option<(String, String)> {
+fn table_vs_before(b: &Obs, a: &Obs, b_quiet: bool) -> Option<(String, String)> {
     if a.frames.len() < b.frames.len() { return Some(("frame-table-shrank".into(), format!("{} frames before, {} after", b.frames.len(), a.frames.len()))); }
     for (x, y) in b.frames.iter().zip(a.frames.iter()) {
         if identity_of(x) != identity_of(y) { return Some(("vacuum-changed-frame-identity".into(), format!("frame {}: [{}] before, [{}] after", x.id, identity_of(x), identity_of(y)))); }
         if !x.active() && y.active() { return Some(("inactive-frame-resurrected-by-vacuum".into(), format!("frame {} was {} before the vacuum and is active after it", x.id, x.status))); }
-        if x.active() && y.active() && x.canon_raw != y.canon_raw {
+        // (with records pending before the vacuum, the read of a chunked document may legitimately change: the vacuum's
+        // leading commit applies pending updates / deletes of its chunks)
+        if x.active() && y.active() && x.canon_raw != y.canon_raw && (b_quiet || x.manifest.is_none()) {
             return Some(("vacuum-changed-active-content".into(), format!("frame {}: canonical payload token {} before, {} after", x.id, x.canon_raw, y.canon_raw)));
         }
         if x.active() && y.active() && x.parent != y.parent {
@@ -192,7 +194,7 @@ fn main() {
                 v.world.branches.push("vacuum-with-shared-payload".into());
             }
             // (a) (b)
-            res = table_vs_reference(a, v.reference).or_else(|| table_vs_before(b, a));
+            res = table_vs_reference(a, v.reference).or_else(|| table_vs_before(b, a, b_quiet));
             // a compacted table: active payloads packed from the data start in id order, inactive ones dropped
             if res.is_none() {
                 let mut cur = 0u64;
@@ -286,6 +288,9 @@ fn main() {
                                             let key = |o: &Obs| o.vec.clone().map(|mut x| { x.sort(); x }).unwrap_or_default();
                                             if key(a) != key(&o2) { res = Some(("reopened-file-differs-after-vacuum".into(), format!("vector index live {:?}, re-opened {:?}", key(a), key(&o2)))); }
                                         }
+                                        if res.is_none() && a.sketch.len() != o2.sketch.len() {
+                                            res = Some(("reopened-file-differs-after-vacuum".into(), format!("sketch track: {} entries on the live handle, {} in the re-opened file", a.sketch.len(), o2.sketch.len())));
+                                        }
                                         if res.is_none() && a.time != o2.time { res = Some(("reopened-file-differs-after-vacuum".into(), format!("time index live {:?}, re-opened {:?}", a.time, o2.time))); }
                                     }
                                 }
@@ -325,8 +330,8 @@ fn corpus() -> Vec<(String, Vec<Op>)> {
         ("doubly-shared-payload-vacuum".into(), vec![put(PayloadKind::Ascii, 400, 7, 100), put(PayloadKind::Ascii, 100, 8, 101), Op::Commit,
             upd_reuse(0, "x"), upd_reuse(0, "y"), Op::Commit, Op::Vacuum, Op::Reopen]),
         // vacuum with pending work (it commits first), chunked documents, payload updates
-        ("pending-chunked-vacuum".into(), vec![put(PayloadKind::Ascii, 5000, 9, 100), put(PayloadKind::Ascii, 50, 10, 101), Op::Commit,
-            upd_payload(1, PayloadKind::Ascii, 3000, 11), Op::Delete { id: 2 }, put(PayloadKind::Table, 2000, 12, 105), Op::Vacuum,
+        ("pending-chunked-vacuum".into(), vec![put(PayloadKind::Ascii, 5000, 9, 100), put(PayloadKind::Ascii, 50, 10, 101), put(PayloadKind::Ascii, 60, 23, 102), Op::Commit,
+            upd_payload(5, PayloadKind::Ascii, 3000, 11), Op::Delete { id: 6 }, put(PayloadKind::Table, 2000, 12, 105), Op::Vacuum,
             put(PayloadKind::Ascii, 60, 13, 106), Op::Commit, Op::Reopen, Op::Vacuum, Op::ReadOnly]),
         // embeddings: the vector index survives
         ("embedded-vacuum".into(), vec![pute(PayloadKind::Ascii, 100, 14, 100, 1), pute(PayloadKind::Ascii, 120, 15, 101, 2), pute(PayloadKind::Bin, 30, 16, 102, 3),
